@@ -1,6 +1,7 @@
 import PkgProofs.Lemmas.PlatFamilies
 import PkgProofs.Lemmas.PlatNodup
 import PkgProofs.Lemmas.ElfBytes
+import PkgProofs.Lemmas.PlatMusl
 /-!
 # C16 — platform tag sequences match the platform's real compatibility range; the ELF / libc probes decode what is encoded
 
@@ -359,6 +360,18 @@ theorem interp_none_without_pt_interp (f : Bytes) (x : Header) (hs : ∀ j < x.p
 theorem glibc_parse_render (M m : Nat) (junk : Str) (hj : ∀ c, junk.head? = some c → isDigit c = false) :
     parseGlibcVersion (dec M ++ 46 :: (dec m ++ junk)) = ((M : Int), (m : Int)) :=
   PlatL.glibc_parse_render M m junk hj
+
+/-- **`_parse_musl_version` reads back what the musl loader prints**: a first line starting with `musl` (anything
+without a line break after it, e.g. ` libc (x86_64)`), a second line `Version M.m` followed by anything that does not
+continue the minor number — the patch level, trailing blanks, `\r\n`, the usage lines — for every `M`, `m`. -/
+theorem musl_parse_render (f : Str) (hf : ∀ x ∈ f, isLineBreak x = false) (M m : Nat) (junk : Str)
+    (hj : ∀ c, junk.head? = some c → isDigit c = false) :
+    parseMuslVersion (sMusl ++ f ++ 10 :: (sVersionSp ++ dec M ++ 46 :: (dec m ++ junk))) = some (M, m) :=
+  PlatL.musl_parse_render f hf M m junk hj
+
+/-- the hypotheses are satisfiable by the loader's actual banner -/
+example : (∀ x ∈ ofString " libc (x86_64)", isLineBreak x = false) ∧
+    (∀ c, (ofString ".2\nDynamic Program Loader").head? = some c → isDigit c = false) := by decide
 
 example : parseGlibcVersion (ofString "2.20-2014.11") = (2, 20) := by decide
 example : parseMuslVersion (ofString "musl libc (x86_64)\nVersion 1.2.2\nDynamic Program Loader") = some (1, 2) := by decide
